@@ -89,6 +89,10 @@ Cases == <<
   [class |-> "tile_end_passes_2p64", root |-> Dir(<<N(5)>>, <<N(1)>>, <<N(9)>>, <<N(101)>>), leaves |-> <<>>,
      patch |-> [data_off |-> <<65535, 65535, 65535, 65432>>]],
   [class |-> "tile_length_u32_max_at_end", root |-> Dir(<<N(5)>>, <<N(1)>>, <<<<0, 0, 65535, 65535>>>>, <<N(1)>>), leaves |-> <<>>, patch |-> NoPatch],
+  [class |-> "count_2p60_and_root_length_2p63", root |-> Vi(TwoP60) \o OneTile, leaves |-> <<>>, patch |-> [root_len |-> TwoP63]],
+  [class |-> "count_max_and_root_length_near_max", root |-> Vi(U!Max) \o OneTile, leaves |-> <<>>,
+     patch |-> [root_len |-> <<65535, 65535, 65535, 65000>>]],
+  [class |-> "count_2p60_and_metadata_length_2p63", root |-> Vi(TwoP60) \o OneTile, leaves |-> <<>>, patch |-> [meta_len |-> TwoP63]],
   [class |-> "leaf_length_u32_max", root |-> Dir(<<N(5)>>, <<N(0)>>, <<<<0, 0, 65535, 65535>>>>, <<N(1)>>), leaves |-> <<>>, patch |-> NoPatch]
 >>
 
@@ -119,7 +123,9 @@ Expected(c) ==
                     "chain_of_10_leaves", "chain_of_100_leaves", "chain_of_1000_leaves", "duplicate_ids",
                     "pointer_at_zero_then_same_id", "pointer_then_pointer_same_id", "overlapping_runs",
                     "tile_end_passes_2p64", "tile_length_u32_max_at_end", "leaf_length_u32_max"} -> "ok"
-    [] c.class \in {"count_2p31", "count_2p40", "count_2p60", "count_max", "count_exceeds_input_by_one"} -> "count_gt_input"
+    [] c.class \in {"count_2p31", "count_2p40", "count_2p60", "count_max", "count_exceeds_input_by_one",
+                    "count_2p60_and_root_length_2p63", "count_max_and_root_length_near_max",
+                    "count_2p60_and_metadata_length_2p63"} -> "count_gt_input"
     [] c.class = "id_sum_overflow" -> "id_overflow"
     [] c.class = "first_offset_zero" -> "first_offset_zero"
     [] c.class = "contiguous_offset_overflow" -> "offset_overflow"
